@@ -19,7 +19,10 @@ Gated == {2026, 2027, 2031, 2048, 8452}
 InitTable(kstack, shape, appid, set0) ==
   [alt |-> FALSE, vis |-> TRUE, shape |-> shape, keypad |-> FALSE,
    set |-> set0,                 \* DEC private modes currently set (25 and 1049 are tracked by vis/alt)
-   kitty |-> kstack, pointer |-> "text", pen |-> DefaultPen, link |-> 0, appid |-> appid,
+   kitty |-> kstack,             \* keyboard-mode stack of the main screen
+   kittyAlt |-> <<>>,            \* ... of the alternate screen ("the main and alternate screens must maintain
+                                 \* their own, independent, keyboard mode stacks", kitty keyboard protocol)
+   pointer |-> "text", pen |-> DefaultPen, link |-> 0, appid |-> appid,
    savedOnAlt |-> FALSE]
 
 SetMode(m, n, v, sup) ==
@@ -35,8 +38,8 @@ Pop(s, n) == IF n >= Len(s) THEN <<>> ELSE SubSeq(s, 1, Len(s) - n)
 Apply(m, e, sup, kk, a176) ==
   CASE e.ev = "set"     -> SetMode(m, e.m, e.v, sup)
     [] e.ev = "keypad"  -> [m EXCEPT !.keypad = e.v]
-    [] e.ev = "kpush"   -> IF kk THEN [m EXCEPT !.kitty = Append(@, e.n)] ELSE m
-    [] e.ev = "kpop"    -> IF kk THEN [m EXCEPT !.kitty = Pop(@, e.n)] ELSE m
+    [] e.ev = "kpush"   -> IF ~kk THEN m ELSE IF m.alt THEN [m EXCEPT !.kittyAlt = Append(@, e.n)] ELSE [m EXCEPT !.kitty = Append(@, e.n)]
+    [] e.ev = "kpop"    -> IF ~kk THEN m ELSE IF m.alt THEN [m EXCEPT !.kittyAlt = Pop(@, e.n)] ELSE [m EXCEPT !.kitty = Pop(@, e.n)]
     [] e.ev = "curs"    -> [m EXCEPT !.shape = e.n]
     [] e.ev = "pointer" -> [m EXCEPT !.pointer = e.s]
     [] e.ev = "sgr"     -> [m EXCEPT !.pen = Apply0(@, e.ps)]
@@ -49,5 +52,5 @@ Restored(m, m0) == m = m0 /\ m.vis /\ ~m.alt
 
 (* Which field differs, for the rejection report. *)
 Diff(m, m0) ==
-  {f \in {"alt", "vis", "shape", "keypad", "set", "kitty", "pointer", "pen", "link", "appid"} : m[f] # m0[f]}
+  {f \in {"alt", "vis", "shape", "keypad", "set", "kitty", "kittyAlt", "pointer", "pen", "link", "appid"} : m[f] # m0[f]}
 =============================================================================
